@@ -35,7 +35,7 @@ __TAPKEE_IMPLEMENTATION(LandmarkMultidimensionalScaling)
         EigendecompositionResult landmarks_embedding =
             eigendecomposition_via(LargestEigenvalues, distance_matrix, parameters[target_dimension]);
         for (IndexType i = 0; i < static_cast<IndexType>(parameters[target_dimension]); i++)
-            landmarks_embedding.first.col(i).array() *= sqrt(landmarks_embedding.second(i));
+            landmarks_embedding.first.col(i).array() *= sqrt(std::max<ScalarType>(landmarks_embedding.second(i), 0.0));
         return TapkeeOutput(triangulate(begin, end, distance, landmarks, landmark_distances_squared,
                                         landmarks_embedding, parameters[target_dimension]),
                             unimplementedProjectingFunction());
